@@ -4,7 +4,8 @@
      (B) the sma schedule of the control skeleton of Ellipse.fit_image (REPAIRED inward loop)
          for every oracle stream of fit outcomes, over exact rationals;
      (C) the corrector chosen by EllipseFitter.fit is never one of a fixed parameter, hence
-         fixed parameters survive the whole iteration; invalid exits carry stop code 3. *)
+         fixed parameters survive the whole iteration (with fixes/C20-4 also a fixed position
+         angle, unconditionally); invalid exits carry stop code 3. *)
 From Coq Require Import List ZArith Bool QArith Lia Lqa Sorted.
 From PV Require Import lib.Cases C20_Model.
 Import ListNotations.
@@ -874,22 +875,22 @@ Proof.
   all: destruct k; discriminate.
 Qed.
 
-Lemma normalise_xy g :
-  g_x0 Qnum (normalise Qnum max_eps min_eps pi2 g) = g_x0 Qnum g /\
-  g_y0 Qnum (normalise Qnum max_eps min_eps pi2 g) = g_y0 Qnum g.
+Lemma normalise_xy fp g :
+  g_x0 Qnum (normalise Qnum max_eps min_eps pi2 fp g) = g_x0 Qnum g /\
+  g_y0 Qnum (normalise Qnum max_eps min_eps pi2 fp g) = g_y0 Qnum g.
+Proof.
+  unfold normalise. destruct (ltb Qnum (g_eps Qnum g) (n0 Qnum)); [destruct fp|]; simpl;
+  match goal with |- context [if ?b then _ else _] => destruct b end; simpl; auto.
+Qed.
+(* fixes/C20-4: with the position angle fixed the normalisation never touches it *)
+Lemma normalise_pa_fixed g :
+  g_pa Qnum (normalise Qnum max_eps min_eps pi2 true g) = g_pa Qnum g.
 Proof.
   unfold normalise. destruct (ltb Qnum (g_eps Qnum g) (n0 Qnum)); simpl;
   match goal with |- context [if ?b then _ else _] => destruct b end; simpl; auto.
 Qed.
-Lemma normalise_pa g : 0 <= g_eps Qnum g ->
-  g_pa Qnum (normalise Qnum max_eps min_eps pi2 g) = g_pa Qnum g.
-Proof.
-  intros H. unfold normalise. simpl. destruct (Qltb (g_eps Qnum g) 0) eqn:E.
-  - apply Qltb_iff in E. lra.
-  - destruct (Qeq_bool (g_eps Qnum g) 0); reflexivity.
-Qed.
-Lemma normalise_eps g : 0 < g_eps Qnum g ->
-  g_eps Qnum (normalise Qnum max_eps min_eps pi2 g) = g_eps Qnum g.
+Lemma normalise_eps fp g : 0 < g_eps Qnum g ->
+  g_eps Qnum (normalise Qnum max_eps min_eps pi2 fp g) = g_eps Qnum g.
 Proof.
   intros H. unfold normalise. simpl. destruct (Qltb (g_eps Qnum g) 0) eqn:E.
   - apply Qltb_iff in E. lra.
@@ -916,12 +917,10 @@ Lemma fit_loop_keeps g0 inw minit : forall os i g lex minamp tr,
   Forall (fun o => length (o_coeffs Qnum o) = 4%nat) os ->
   keeps g0 g -> (forall a gm, minamp = Some (a, gm) -> keeps g0 gm) ->
   (feps = true -> 0 < g_eps Qnum g0) ->
-  let r := fit_loop Qnum max_eps min_eps pi2 mask inw minit i os g lex minamp tr in
-  (fpa = true -> feps = false -> forall gc, In gc (snd r) -> 0 <= g_eps Qnum gc) ->
-  keeps g0 (snd (fst r)).
+  keeps g0 (snd (fst (fit_loop Qnum max_eps min_eps pi2 mask inw minit i os g lex minamp tr))).
 Proof.
   induction os as [|o os IH]; intros i g lex minamp tr Hlen Hg Hmin Heps; cbn [fit_loop].
-  - intros _. destruct minamp as [[a gm]|]; cbn [fst snd]; eauto.
+  - destruct minamp as [[a gm]|]; cbn [fst snd]; eauto.
   - inversion Hlen as [|? ? Hl4 Hlen']; subst.
     destruct (o_empty Qnum o || o_fitfail Qnum o); cbn [fst snd]; auto.
     set (k := argmax_masked Qnum (o_coeffs Qnum o) mask).
@@ -936,25 +935,20 @@ Proof.
     clearbody minamp'.
     destruct (o_converged Qnum o && (minit - 1 <=? i)%nat); cbn [fst snd]; auto.
     destruct (o_fewpts Qnum o); cbn [fst snd].
-    { intros _. destruct minamp' as [[a gm]|]; eauto. }
+    { destruct minamp' as [[a gm]|]; eauto. }
     destruct (o_gradzero Qnum o); cbn [fst snd]; auto.
     set (gc := correct Qnum max_eps k g o).
     assert (Hgc : keeps g0 gc) by (eapply keeps_trans; [exact Hg|apply correct_keeps; auto]).
     clearbody gc.
     destruct (check_conditions Qnum max_eps gc o inw lex) as [p lx].
-    assert (Hn : (fpa = true -> feps = false -> 0 <= g_eps Qnum gc) ->
-                 keeps g0 (normalise Qnum max_eps min_eps pi2 gc)).
-    { intros Hpos. destruct Hgc as (A & B & C). destruct (normalise_xy gc) as [Hx Hy].
+    change (nth 2 mask false) with fpa.
+    assert (Hn : keeps g0 (normalise Qnum max_eps min_eps pi2 fpa gc)).
+    { destruct Hgc as (A & B & C). destruct (normalise_xy fpa gc) as [Hx Hy].
       split; [|split]; intros HH.
       - rewrite Hx, Hy. apply A; auto.
-      - rewrite normalise_pa; auto. destruct feps eqn:Ef; auto.
-        rewrite (C eq_refl). specialize (Heps eq_refl). lra.
+      - rewrite HH. rewrite normalise_pa_fixed. apply B; auto.
       - rewrite normalise_eps; auto. rewrite (C HH). auto. }
-    destruct p; cbn [fst snd].
-    + intros Htr. apply IH; auto.
-      apply Hn. intros H1 H2. apply (Htr H1 H2).
-      apply fit_loop_trace_incl. apply in_or_app. right. simpl; auto.
-    + intros Htr. apply Hn. intros H1 H2. apply (Htr H1 H2). apply in_or_app. right. simpl; auto.
+    destruct p; cbn [fst snd]; auto.
 Qed.
 
 (* every exit of the fitter that is not valid has stop code 3 (premise of the schedule theorem) *)
@@ -977,9 +971,7 @@ Lemma fixed_params_kept_proof max_eps min_eps pi2 fc fpa feps inw minit os g :
   fc && fpa && feps = false ->
   Forall (fun o => length (o_coeffs Qnum o) = 4%nat) os ->
   (feps = true -> 0 < g_eps Qnum g) ->
-  let r := fit Qnum max_eps min_eps pi2 fc fpa feps inw minit os g in
-  (fpa = true -> feps = false -> forall gc, In gc (snd r) -> 0 <= g_eps Qnum gc) ->
-  keeps fc fpa feps g (snd (fst r)).
+  keeps fc fpa feps g (snd (fst (fit Qnum max_eps min_eps pi2 fc fpa feps inw minit os g))).
 Proof.
   intros Hfree Hlen Heps. unfold fit. apply fit_loop_keeps; auto.
   - apply keeps_refl.
@@ -990,3 +982,9 @@ Lemma fit_invalid_only_code3_proof max_eps min_eps pi2 fc fpa feps inw minit os 
   let r := fst (fit Qnum max_eps min_eps pi2 fc fpa feps inw minit os g) in
   snd (fst r) = false -> fst (fst r) = 3%Z.
 Proof. unfold fit. apply fit_loop_invalid_code3. Qed.
+
+Lemma fixed_pa_refuted_unrepaired_proof :
+  exists g : geom Qnum, g_pa Qnum (normalise Qnum (95 # 100) (5 # 100) (157 # 100) false g) <> g_pa Qnum g.
+Proof.
+  exists (mkgeom Qnum 10 10 1 (- (1 # 10))). vm_compute. intros E. inversion E.
+Qed.
